@@ -233,4 +233,41 @@ def Operand.snapTo : Operand → Operand → SetOut GeoBox
   | .linear a, .linear b => .res (a.snapTo b)
   | _, _ => .refused
 
+/-! ## final increment: `BoundingBox.map_bounds` / `aoi` dispatch (geom.py:193-204, 295-301)
+
+`ll` is the tag of `EPSG:4326`; pyproj is `reproj`. -/
+
+/-- `map_bounds()`: `((lat, lon), (lat, lon))` of the south-west and north-east corners; without CRS or
+already in lon/lat the box is read as it is, otherwise vertices 0 and 2 of the re-projected ring
+(`(left, bottom)` and `(right, top)`) are used -/
+def BBox.mapBounds (bb : BBox Rat) (reproj : Reproj) (ll : Nat) : (Rat × Rat) × (Rat × Rat) :=
+  if bb.crs = some ll ∨ bb.crs = none then ((bb.bottom, bb.left), (bb.top, bb.right))
+  else
+    let p0 := reproj bb.crs (some ll) (bb.left, bb.bottom)
+    let p2 := reproj bb.crs (some ll) (bb.right, bb.top)
+    ((p0.2, p0.1), (p2.2, p2.1))
+
+/-- `aoi`: `AreaOfInterest(west, south, east, north)`: the box itself without CRS or in lon/lat, else
+`to_crs("epsg:4326").bbox` -/
+def BBox.aoi (bb : BBox Rat) (reproj : Reproj) (ll : Nat) : Res (Rat × Rat × Rat × Rat) :=
+  if bb.crs = none ∨ bb.crs = some ll then .ok (bb.left, bb.bottom, bb.right, bb.top)
+  else match bb.toCrs reproj ll with
+    | .error e => .error e
+    | .ok o => .ok (o.left, o.bottom, o.right, o.top)
+
+/-! ### `GCPGeoBox.project` (gcp.py:178-185 under geobox.py:384-402)
+
+The inherited `project` with the non-linear point maps: `pix2wld = p2w ∘ affine`, `wld2pix = ~affine ∘ w2p`
+(`P = p2w`, `Q = w2p` of the shared `GCPMapping`, abstract). -/
+def gcpProject (g : GeoBox) (P Q : Pt → Pt) (reproj : Reproj) (crs : Option Nat) (p : Pt) (ps : List Pt) :
+    Res (Option Nat × Pt × List Pt) :=
+  if crs = none then .ok (g.crs, P (g.aff.apply p), ps.map (fun q => P (g.aff.apply q)))
+  else if g.crs = none then .error .assertion
+  else
+    let f : Pt → Pt := if crs = g.crs then fun q => q else reproj crs g.crs
+    match g.aff.inv? with
+    | .error e => .error e
+    | .ok w2p => .ok (none, w2p.apply (Q (f p)), ps.map (fun q => w2p.apply (Q (f q))))
+
+
 end OdcGeo.C16
